@@ -10,7 +10,8 @@ static void mon_cas(void* addr, uint64_t e, uint64_t d, _Bool ok, int o);
 #define XV_ON_STORE(addr, val, order) mon_store((void*)(addr), (uint64_t)(val), (order))
 #define XV_ON_LOAD(addr, val, order) mon_load((void*)(addr), (uint64_t)(val), (order))
 #define XV_ON_CAS(addr, e, d, ok, order) mon_cas((void*)(addr), (uint64_t)(e), (uint64_t)(d), (ok), (order))
-#define XV_ON_RMW(addr, oldv, newv, order) ((void)0)
+static void mon_rmw(void* addr, uint64_t oldv, uint64_t newv, int o);
+#define XV_ON_RMW(addr, oldv, newv, order) mon_rmw((void*)(addr), (uint64_t)(oldv), (uint64_t)(newv), (order))
 #include "xv.h"
 int xv_threw; uint64_t xv_clock, xv_rmw_old; _Bool xv_cas_ok;
 #include "../vhm_bs/bs_prelude.h"
